@@ -239,10 +239,87 @@ def h_translate_cigar(ops):
     return fn
 
 
+class ListSet:
+    """stand-in for the vertex sets of the intron graph: iterates in the order given (set iteration order depends on the
+    hash of (type, position), i.e. on the absolute coordinate: it is arbitrary and changes under translation)"""
+    def __init__(self, l):
+        self.l = list(l)
+
+    def __iter__(self):
+        return iter(self.l)
+
+    def __len__(self):
+        return len(self.l)
+
+
+def h_thread(n):
+    """IntronPathProcessor.thread_ends / thread_starts on a directly constructed graph neighbourhood: n terminal / intron
+    vertices after one intron.  (a) the vertex chosen does not depend on the iteration order of the vertex set (translation
+    changes hash order); (b) thread_starts on the mirror image returns the mirror of what thread_ends returns."""
+    import itertools
+    import src.graph_based_model_construction as gbmc
+    import src.intron_graph as ig
+    perms = list(itertools.permutations(range(n)))
+
+    def fn(g):
+        intron = (5000, 6000)
+        apa = g.int("apa_delta", 0, 60)
+        delta = g.int("delta", 0, 12)
+        kinds = [g.choice("vertex%d_kind" % i, 3) for i in range(n)]          # polyA, read end, next intron
+        pos = [g.int("vertex%d_pos" % i, 6002, 9000) for i in range(n)]
+        for a_, b_ in itertools.combinations(range(n), 2):
+            g.add(pos[a_] != pos[b_])
+        fwd, rev = [], []
+        for i in range(n):
+            if kinds[i] == 0:
+                fwd.append((ig.VERTEX_polya, pos[i]))
+                rev.append((ig.VERTEX_polyt, M - pos[i]))
+            elif kinds[i] == 1:
+                fwd.append((ig.VERTEX_read_end, pos[i]))
+                rev.append((ig.VERTEX_read_start, M - pos[i]))
+            else:
+                fwd.append((pos[i], pos[i] + 500))
+                rev.append((M - pos[i] - 500, M - pos[i]))
+        end = g.int("read_end", 6001, 9500)
+        trusted = bool(g.bool("end_is_trusted_polya"))
+
+        def processor(out_edges, in_edges):
+            graph = ig.IntronGraph.__new__(ig.IntronGraph)
+            graph.outgoing_edges, graph.incoming_edges = out_edges, in_edges
+            pp = gbmc.IntronPathProcessor.__new__(gbmc.IntronPathProcessor)
+            pp.params, pp.intron_graph = Params(), graph
+            pp.params.apa_delta, pp.params.delta = apa, delta
+            return pp
+        res = []
+        for which in ("order_a", "order_b"):
+            pm = perms[g.choice(which, len(perms))]
+            res.append(call(g, processor({intron: ListSet(fwd[i] for i in pm)}, {}).thread_ends, intron, end, trusted))
+        det = {"vertices": fwd, "read_end": end, "trusted": trusted, "chosen": res}
+        same = (res[0] is None and res[1] is None) or (res[0] is not None and res[1] is not None and res[0][0] == res[1][0] and res[0][1] == res[1][1])
+        g.check(same, "the terminal vertex a read is threaded to does not depend on the iteration order of the vertex set", detail=det)
+        m_intron = mir(intron)
+        r = call(g, processor({}, {m_intron: ListSet(rev)}).thread_starts, m_intron, M - end, trusted)
+        # near-identical ends: two polyA vertices within apa_delta of the read end are told apart by coordinate order (outside the claim)
+        near = SUM([ITE(AND(kinds[i] == 0, abs(pos[i] - end) <= apa), 1, 0) for i in range(n)])
+        e = res[0]
+        if e is None:
+            ok = r is None
+        else:
+            ok = r is not None and r[1] == M - e[1] and r[0] == {ig.VERTEX_polya: ig.VERTEX_polyt, ig.VERTEX_read_end: ig.VERTEX_read_start}.get(e[0], None)
+        g.check(IMPLIES(near <= 1, ok), "thread_starts on the mirror image = mirror of thread_ends", detail=dict(det, mirrored_result=r))
+    return fn
+
+
 def instances(tier, seed):
     q = tier == "quick"
     P = "src.polya_verification:"
     out = []
+    G = "src.graph_based_model_construction:"
+    for n in ((1, 2) if q else (1, 2, 3)):
+        out.append(Instance("thread_terminal[%d]" % n, h_thread(n), [G + "IntronPathProcessor.thread_ends", G + "IntronPathProcessor.thread_starts",
+                                                                     "src.intron_graph:IntronGraph.get_outgoing", "src.intron_graph:IntronGraph.get_incoming"],
+                            "%d vertices (polyA / read end / next intron, symbolic positions) after one intron, symbolic read end, apa_delta, delta; "
+                            "both iteration orders of the vertex set" % n, weight=30 ** n, budget_s=900))
     for n in ((1, 2, 3) if q else (1, 2, 3, 4)):
         out.append(Instance("mirror_polya_counts[%d]" % n, h_counts(n), [P + "PolyAFixer.count_polya_exons", P + "PolyAFixer.count_polyt_exons",
                                                                          P + "shift_polya", P + "shift_polyt"], "%d exons, symbolic positions" % n, weight=3 ** n))
